@@ -329,6 +329,14 @@ func hasEmpty(v any) bool {
 
 func numEqual(want, got any) bool {
 	switch w := want.(type) {
+	case uint64:
+		switch g := got.(type) {
+		case int64:
+			return g >= 0 && uint64(g) == w
+		case json.Number:
+			bi, ok := new(big.Int).SetString(string(g), 10)
+			return ok && bi.IsUint64() && bi.Uint64() == w
+		}
 	case int64:
 		switch g := got.(type) {
 		case int64:
@@ -359,7 +367,7 @@ func sameTree(want, got any) bool {
 	case bool:
 		g, ok := got.(bool)
 		return ok && g == w
-	case int64, float64:
+	case int64, uint64, float64:
 		return numEqual(want, got)
 	case string:
 		g, ok := got.(string)
@@ -440,6 +448,8 @@ func canonIn(sb *strings.Builder, v any) {
 			sb.WriteString("f")
 		}
 	case int64:
+		fmt.Fprintf(sb, "I(%d)", t)
+	case uint64:
 		fmt.Fprintf(sb, "I(%d)", t)
 	case float64:
 		sb.WriteString("F(" + lib.HexF([]byte(fmtFloat(t))) + ")")
@@ -605,6 +615,50 @@ func checkFloatGrammar(d *lib.Driver, v any) error {
 		}
 	}
 	return nil
+}
+
+// hasBigUint: a uint64 leaf of 2^63 or more
+func hasBigUint(v any) bool {
+	switch t := v.(type) {
+	case uint64:
+		return t >= 1<<63
+	case []any:
+		for _, x := range t {
+			if hasBigUint(x) {
+				return true
+			}
+		}
+	case map[string]any:
+		for _, x := range t {
+			if hasBigUint(x) {
+				return true
+			}
+		}
+	}
+	return false
+}
+
+// reduceBigUint: the same tree with every such leaf reduced by 2^63
+func reduceBigUint(v any) any {
+	switch t := v.(type) {
+	case uint64:
+		if t >= 1<<63 {
+			return t - 1<<63
+		}
+	case []any:
+		a := make([]any, len(t))
+		for i, x := range t {
+			a[i] = reduceBigUint(x)
+		}
+		return a
+	case map[string]any:
+		m := make(map[string]any, len(t))
+		for k, x := range t {
+			m[k] = reduceBigUint(x)
+		}
+		return m
+	}
+	return v
 }
 
 // chunkRecorder keeps every slice handed to Write (copied)
@@ -843,6 +897,13 @@ func judgeTree(d *lib.Driver, v any, o wopts) error {
 			sort.Strings(ids)
 			extra["excluded_classes"] = ids
 			addKnown(ids[0], cls+":"+ids[0], "the tree has strings of the excluded classes "+strings.Join(ids, ", ")+" and round-trips once they are replaced", in, extra)
+			return nil
+		}
+	}
+	// pretty: a uint64 leaf of 2^63 or more is written as the int64 with the same bits (pretty/build.go: buildInt(int64(td)))
+	if strings.HasPrefix(o.writer, "pretty.") && hasBigUint(v) {
+		if ok2, _, _, _ := roundTrips(reduceBigUint(v), o); ok2 {
+			addKnown("C10-pretty-uint64-wrap", cls+":C10-pretty-uint64-wrap", "pretty writes a uint64 of 2^63 or more as a negative int64; the tree round-trips once those leaves are reduced by 2^63", in, extra)
 			return nil
 		}
 	}
@@ -1174,6 +1235,15 @@ func runC10() {
 		for _, n := range intPool {
 			addT([]any{n, map[string]any{"a": n}}, wopts{writer: "sen.String", sort: true})
 			addT([]any{n}, wopts{writer: "pretty.SEN", width: 80, maxDepth: 3, sort: true})
+		}
+		// uint64 leaves (strconv.AppendUint): up to and beyond the int64 range
+		for _, u := range []uint64{0, 7, 1 << 62, 9223372036854775799, 9223372036854775800, 9223372036854775807, 1 << 63, 1<<63 + 1,
+			9999999999999999999, 10000000000000000000, 12345678901234567890, 18446744073709551614, 18446744073709551615} {
+			addT([]any{u, map[string]any{"a": u}}, wopts{writer: "sen.String", sort: true})
+			addT([]any{u, map[string]any{"a": u}}, wopts{writer: "sen.Write", sort: true, indent: 2, limit: 3})
+			addT(u, wopts{writer: "sen.Bytes", sort: true})
+			addT([]any{u}, wopts{writer: "pretty.SEN", width: 80, maxDepth: 3, sort: true})
+			rep.Count("stream.uint64", 1)
 		}
 		for _, f := range floatPool {
 			addT([]any{f, -f, map[string]any{"a": f}}, wopts{writer: "sen.String", sort: true})
